@@ -3,11 +3,13 @@
    implementation.  TimesRel R g h says: h is g with every time x replaced by a
    y with R x y; names, sizes, rates, proportions, ancestry, every list length
    and order, metadata and the name index are equal.
-   Validity of the result is NOT a theorem for binary64: the quotient t/gt is
-   not injective / can overflow or underflow on floats (known findings F12a-c);
-   it is checked on every converted graph by the harness. *)
+   C11_valid: the result is a valid graph whenever dividing the graph's times by the
+   generation time behaves like division of real numbers on them (DivOK: strictly monotone,
+   finite stays finite, infinity stays infinity, zero stays zero).  On binary64 DivOK is
+   exactly what fails in the known findings F12a (two times collapse), F12b (overflow),
+   F12c (underflow); the harness classifies an invalid result by which of these occurs. *)
 From Coq Require Import Bool List String QArith.
-From Demes Require Import Base.Num Base.Py Model.MDM Model.InGen Spec.Valid Proofs.InGenProofs.
+From Demes Require Import Base.Num Base.Py Model.MDM Model.InGen Spec.Valid Proofs.InGenProofs Proofs.InGenValid.
 Import ListNotations.
 Local Open Scope string_scope.
 Local Open Scope list_scope.
@@ -31,8 +33,12 @@ Section C11.
     g_units h' = g_units h /\ g_gt h' = g_gt h /\
     TimesRel (fun x y => neqb y x = true) h h'.
   Proof. exact (ingen_idem g h h'). Qed.
+  Theorem C11_valid g h :
+    Valid g -> DivOK (g_gt g) (all_times g) -> in_generations g = Ok h -> Valid h.
+  Proof. exact (ingen_valid g h). Qed.
 End C11.
 
 Print Assumptions C11_total.
 Print Assumptions C11_times_divided_frame_unchanged.
 Print Assumptions C11_idempotent.
+Print Assumptions C11_valid.
